@@ -494,6 +494,26 @@ class World:
             smp = [float(v) for v in self._np(dist.samples)]
             ctx.check(len(smp) == N, "toys", dict(sig, what="ntoys"), f"{nm} distribution has {len(smp)} samples, requested {N}")
             self._check_empirical(dist, smp, [q_obs, 0.0, max(smp) + 1.0] + smp[:2], "toys")
+        # what the calculator reports for an observed value is exactly the two tail fractions (and their ratio), also for
+        # values beyond every toy
+        smp_sb = [float(v) for v in self._np(sb.samples)]
+        smp_b = [float(v) for v in self._np(bo.samples)]
+        for v in (q_obs, max(smp_sb + smp_b) + 1.0, 0.0, sorted(smp_b)[len(smp_b) // 2]):
+            try:
+                a_, b_, c_ = (float(self._np(t)) for t in calc.pvalues(tl.astensor(v), sb, bo))
+            except Exception as e:
+                ctx.fail("toys", dict(sig, what="pvalues_raises"), f"pvalues({v}) raised {type(e).__name__}: {e}")
+                break
+            fa = sum(1 for x in smp_sb if x >= v) / len(smp_sb)
+            fb = sum(1 for x in smp_b if x >= v) / len(smp_b)
+            ctx.c.oracle_evals["toys_pvalues_fraction"] += 1
+            ctx.check(abs(a_ - fa) <= 1e-12 and abs(b_ - fb) <= 1e-12, "toys", dict(sig, what="pvalues_fraction"),
+                      lambda: f"pvalues({v}) reports (CL_s+b, CL_b) = ({a_!r}, {b_!r}); the fractions of toys >= it are ({fa!r}, {fb!r}) of {len(smp_sb)}/{len(smp_b)}")
+            if fb > 0:
+                ctx.check(abs(c_ - fa / fb) <= 1e-9 * max(1.0, fa / fb), "toys", dict(sig, what="pvalues_ratio"),
+                          lambda: f"pvalues({v}): CL_s = {c_!r}, CL_s+b/CL_b = {fa / fb!r}")
+            else:
+                ctx.probe("toys_clb_zero")
         delta = (1e-2 if self.reg[1] == "32b" else 1e-6) * max(1.0, q_obs_ref)
         mu_alt = 1.0 if ts == "q0" else 0.0
         cache = {}
